@@ -220,7 +220,7 @@ pub fn server_config(require_cert: bool) -> Arc<rustls::ServerConfig> {
 }
 
 fn client_config(t: &TlsClient) -> Arc<rustls::ClientConfig> {
-    let key = (t.cert as u8) | (t.v13 as u8) << 1;
+    let key = (t.cert as u8) | (t.v13 as u8) << 1 | (if t.cert { t.chain.min(3) } else { 0 }) << 2;
     if let Some(c) = CCFG_CACHE.with(|c| c.borrow().iter().find(|e| e.0 == key).map(|e| e.1.clone())) {
         return c;
     }
@@ -241,7 +241,7 @@ fn client_config(t: &TlsClient) -> Arc<rustls::ClientConfig> {
         }));
     let mut cfg = if t.cert {
         b.with_client_auth_cert(
-            vec![CertificateDer::from(tlsfix::client_cert().to_vec())],
+            t.presented_chain().into_iter().map(CertificateDer::from).collect(),
             PrivateKeyDer::Pkcs8(PrivatePkcs8KeyDer::from(tlsfix::client_key().to_vec())),
         )
         .expect("harness: client certificate")
